@@ -3,4 +3,5 @@ CONSTANTS
   Passes = {1, 2, 3}
   InitFails = FALSE
   LatchSkips = TRUE
-INVARIANTS NoPanic CfgOrErr NoPartial NoParamRace WrittenOnce MutexOK
+  UnlockAlways = TRUE
+INVARIANTS NoPanic CfgOrErr NoPartial NoParamRace WrittenOnce MutexOK ErrReportedOnce
